@@ -29,6 +29,20 @@ Theorem C15_safe_if_ahead : forall d v,
 Proof. exact safe_if_ahead. Qed.
 Print Assumptions C15_safe_if_ahead.
 
+(* The new leader need not be a fresh node: it may have been synced to revisions as a follower
+   (revision.SyncReadRevision -> SetCurrentRevision(r_i); dealt counter = max r_i <> 0). tso.Commit
+   raises the dealt counter to any larger committed value, so with v at or above every stored revision
+   and every synced one the node deals from v, and C15_safe_if_ahead applies from Good d v. *)
+Theorem C15_set_current : forall l v, deal (set_current l v) = N.max (deal l) v /\ committed (set_current l v) = v.
+Proof. exact set_current_spec. Qed.
+Print Assumptions C15_set_current.
+
+Theorem C15_safe_if_ahead_follower : forall d v l,
+  WF d -> dmax d <= v -> deal l <= v ->
+  set_current l v = mkL v v /\ Good d (deal (set_current l v)).
+Proof. exact safe_if_ahead_follower. Qed.
+Print Assumptions C15_safe_if_ahead_follower.
+
 (* well-formedness of the stored records needs no hypothesis on revisions: every request keeps it *)
 Theorem C15_wf_preserved : forall d n o, WF d -> WF (d_store (do_op d n o)).
 Proof. exact do_op_wf. Qed.
@@ -110,8 +124,11 @@ Print Assumptions C15_clock_ahead_badger_all_commit.
 
 (* The executable oracle, evaluated on the implementation's observations, accepts every trace the
    model produces — except on the finding's signature, where it answers with the finding's code.
-   c15_valid: every election in the script is a winning one by a fresh process, only the current
-   leader serves requests, and on the environment clocks the rate hypothesis holds at every hand-over. *)
+   c15_valid: a process is elected at most once and only synced as a follower (SetCurrentRevision from
+   revision.SyncReadRevision) before that, only the current leader serves requests, and on the
+   environment clocks the rate hypothesis holds at every hand-over (the clock reading is at or above
+   every stored revision and every revision the node had synced to). Elections may fail — in
+   particular when the timestamp read after the committed lock write fails (tf) — and be retried. *)
 Theorem C15_oracle_sound : forall c, c15_valid c -> c15_check c = true ->
   c15_oracle c = None \/ (c15_oracle c = Some 1 /\ c_engine c = EBadger).
 Proof. exact c15_oracle_sound. Qed.
@@ -160,7 +177,7 @@ Proof. exact env_witness_ok. Qed.
 (* the oracle is not trivially quiet: it rejects a new leader that hands out a stale revision *)
 Example C15_oracle_rejects :
   c15_oracle (mkC15 EMem
-    [(AElect 2 idB recB recB 5 5, OElect (EAcquired 5) ROk ROk d_ex (Some recB));
+    [(AElect 2 idB recB recB 5 5 false, OElect (EAcquired 5) ROk ROk d_ex (Some recB));
      (AOp 2 (HCreate [99] [1]), OOp (mkRes HOk 6))]) = Some 0.
 Proof. vm_compute. reflexivity. Qed.
 
@@ -172,21 +189,21 @@ Fixpoint model_script (e : engine) (s : mstate) (acts : list act) : list (act * 
   | a :: tl => let '(s', o) := m_step e s a in (a, o) :: model_script e s' tl
   end.
 Definition ex_acts (t2 t4 : N) : list act :=
-  [AElect 1 idA recA recA 0 t2] ++ map (AOp 1) f1_history ++
-  [ARestart; AElect 2 idB recB recB t4 t4; AList 2; AOp 2 (HUpdate kb [1] (t2 + 12)); AOp 2 (HCreate [99] [1])].
+  [AElect 1 idA recA recA 0 t2 false] ++ map (AOp 1) f1_history ++
+  [ARestart; ASync 2 t2; AGet 2 t4; AElect 2 idB recB recB t4 t4 true; AElect 2 idB recB recB t4 t4 false; AList 2; AOp 2 (HUpdate kb [1] (t2 + 12)); AOp 2 (HCreate [99] [1])].
 Example C15_valid_inhabited_env :
   let c := mkC15 EMem (model_script EMem mstate0 (ex_acts 100 112)) in
   c15_valid c /\ c15_check c = true /\ c15_oracle c = None.
 Proof.
   split; [|split; vm_compute; reflexivity].
-  vm_compute. repeat split; intros; try discriminate; try congruence.
+  vm_compute. intuition (try discriminate; try congruence).
 Qed.
 Example C15_valid_inhabited_badger :
   let c := mkC15 EBadger (model_script EBadger mstate0 (ex_acts 1 0)) in
   c15_valid c /\ c15_check c = true /\ c15_oracle c = Some 1.
 Proof.
   split; [|split; vm_compute; reflexivity].
-  vm_compute. repeat split; intros; try discriminate; try congruence.
+  vm_compute. intuition (try discriminate; try congruence).
 Qed.
 
 (* the callback order on a concrete interleaving: requests before the flag are refused, after it they
